@@ -28,7 +28,15 @@ for s in "$@"; do
   /verif/bin/saocheck -p $prop -repo $wt -verif /tmp/vrs-$s > /root/vmlog/rs-$s.log 2>&1; E=$?
   V=$(grep -c '^VIOLATION' /root/vmlog/rs-$s.log); U=$(grep -c '^UNDECIDED' /root/vmlog/rs-$s.log)
   rules=$(grep '^violation:' /root/vmlog/rs-$s.log | awk '{print $2}' | sort -u | tr '\n' ' ')
-  echo "$s build=$B baseline=$BL demo=$D check_exit=$E viol=$V und=$U rules=[$rules]"
+  # the same check on the seed alone: rules (and undecided obligations) that only the composite raises are false alarms
+  # of the refactoring, not detections of the seed
+  git checkout -q -- . ; git clean -fdq; git apply /verif/seeded/$s/patch.diff
+  /verif/bin/saocheck -p $prop -repo $wt -verif /tmp/vrs-$s > /root/vmlog/rs-$s.seed.log 2>&1
+  srules=$(grep '^violation:' /root/vmlog/rs-$s.seed.log | awk '{print $2}' | sort -u | tr '\n' ' ')
+  extra=""
+  for x in $rules; do case " $srules " in *" $x "*) ;; *) extra="$extra $x";; esac; done
+  sund=$(grep -c '^UNDECIDED' /root/vmlog/rs-$s.seed.log)
+  echo "$s build=$B baseline=$BL demo=$D check_exit=$E viol=$V und=$U rules=[$rules] seed_alone=[$srules] seed_und=$sund EXTRA=[$extra ]"
   cd /; git -C /repo worktree remove --force $wt >/dev/null 2>&1; rm -rf /tmp/vrs-$s
  ) &
 done
